@@ -6,7 +6,8 @@ import vlib
 
 LEVEL = "model_checking"
 # exact-in-binary affine maps v -> a*v + b (a > 0)
-MAPS = [(1, 0, "int"), (1.0, 0.0, "float"), (0.125, 5.0, "x2^-3+5"), (float(2 ** 20), 0.0, "x2^20"), (3.0, -7.0, "x3-7")]
+MAPS = [(1, 0, "int"), (1.0, 0.0, "float"), (0.125, 5.0, "x2^-3+5"), (float(2 ** 20), 0.0, "x2^20"), (3.0, -7.0, "x3-7"),
+        (2.0 ** -40, 0.0, "x2^-40")]       # a tiny coordinate scale: the tolerance is relative to the scale, not absolute
 REL_TOL = 1e-9
 
 
@@ -79,7 +80,7 @@ def run(ctx):
             f = lambda v: a * v + b  # noqa: E731
             seg = [[f(x1), f(y1)], [f(x2), f(y2)]]
             bnd = [[f(xmin), f(ymin)], [f(xmax), f(ymax)]]
-            scale = max(1.0, max(abs(f(v)) for v in st["in"]))
+            scale = max(abs(f(v)) for v in st["in"])
             status, acc, out = call(pu, seg, bnd)
             ctx.count((tuple(st["in"]), mname))
             bad = judge(st["abs"], status, acc, out, f, scale)
@@ -137,7 +138,7 @@ def run(ctx):
         status, acc, out = call(pu, [[f(e["x1"]), f(e["y1"])], [f(e["x2"]), f(e["y2"])]], [[f(e["xmin"]), f(e["ymin"])], [f(e["xmax"]), f(e["ymax"])]])
         ctx.count(("V", tuple(vals)))
         classes[ab["cls"]] += 1
-        bad = judge(ab, status, acc, out, f, max(1.0, max(abs(f(v)) for v in vals)))
+        bad = judge(ab, status, acc, out, f, max(abs(f(v)) for v in vals))
         if bad:
             rej += 1
             ctx.violation(bad[0], {"mode": "V", "in": vals, "map": [0.125, 0.0], "class": ab["cls"]}, bad[1], bad[2])
@@ -164,5 +165,5 @@ def replay(rec):
     a, b = c["map"]
     f = lambda v: a * v + b  # noqa: E731
     status, acc, out = call(pu, [[f(e["x1"]), f(e["y1"])], [f(e["x2"]), f(e["y2"])]], [[f(e["xmin"]), f(e["ymin"])], [f(e["xmax"]), f(e["ymax"])]])
-    bad = judge(verdicts[0], status, acc, out, f, max(1.0, max(abs(f(v)) for v in c["in"])))
+    bad = judge(verdicts[0], status, acc, out, f, max(abs(f(v)) for v in c["in"]))
     return bad is None, {"abstract": verdicts[0]["cls"], "status": status, "accept": acc, "out": out, "mismatch": bad}
